@@ -392,7 +392,7 @@ def main(argv=None):
     for entry in kf:
         if entry["status"] == "known" and known_hits.get(entry["id"]) and entry["id"] not in printed:
             printed.add(entry["id"])
-            print(f"KNOWN-FINDING: property={prop} {entry['what']} [{entry['id']}] hits={known_hits[entry['id']]}")
+            print(f"  known finding {entry['id']}: {known_hits[entry['id']]} hit(s) in this run (canonical replay + batch)")
 
     for he in harness_errors[:10]:
         print(f"HARNESS-ERROR run={he['i']}: {he['harness_error'][:1500]}")
